@@ -1,13 +1,16 @@
 """C13 — peering: lower-priority operators pause, exactly the top one is active, also after exits/kills.
 
 Proof: lean/Kopf/Props/C13.lean over lean/Kopf/Model/C13_Peering.lean (`decideEv` = one call of
-`process_peering_event` on any status content; `step` = the shared peering object + any number of operators
-as a labelled transition system; `kaSleep`/`touchVal` = keep-alive arithmetic and what `touch()` writes).
+`process_peering_event` on any status content; `step` = the shared peering object - status and version - + any number of
+operators as a labelled transition system, with the conditional clean of 054d47d and the stop order of 26a293c;
+`kaSleep`/`touchVal` = keep-alive arithmetic and what `touch()` writes).
 Tie (S): every call of the REAL `process_peering_event` — thousands of direct calls on generated status
 contents (incl. garbled ones, exact-deadline clocks, API latency inside the call, interrupted sleeps) and every
 call observed inside multi-operator simulations — is replayed through `decideEv`: same cleaned peers, same
 toggle action and state, same delays, same sleep, same self-touch. (D, exhaustive) the real `keepalive`
 period for lifetimes 0..130 x jitter 5..10 and the real `touch` payload against `kaSleep`/`touchVal`.
+(S) every write to the peering object through `Status.patch`, every call that cleans as one `deliverStale` step
+(view, its resourceVersion, the object and its resourceVersion when the PATCH arrived): applied / refused, resulting status, toggle.
 Multi-operator simulations: 2-4 REAL `kopf.operator()`s on one fake cluster with a ClusterKopfPeering,
 scripted starts / graceful stops / kills / restarts, foreign records, per-operator delivery delays.
 Oracle (independent of Lean, over virtual time): see `oracle_history` and `direct_oracle`.
@@ -28,56 +31,61 @@ from . import sim_c13
 ID = "C13"
 LEVEL = "proof"
 ENGINES = ["lean-model", "purediff", "kopfsim"]
-# LEVEL is the schema enum; STRENGTH says how much of the property the theorems carry: "partial" because the ensemble
-# clauses are proved under a named guard only (and three of them are FALSE of the code: F4/F5, F7, F9) and the pause effects rest on
-# the simulation oracle alone.
+# LEVEL is the schema enum; STRENGTH says how much of the property the theorems carry: "partial" because the "exactly the top one
+# ends up active" clauses still carry one guard (the LAST view each operator processes has the verdict of the current status: the
+# residue of F4, a wrong verdict from an old view), inevitability of cleanup is FALSE of the code (F10), and the pause effects rest
+# on the simulation oracle alone.
 STRENGTH = "partial"
 TIE = ("S: every call of the real process_peering_event (direct calls on generated status contents + all calls inside "
        "multi-operator simulations) replayed through the Lean `decideEv`; D exhaustive for keepalive period / touch payload; "
        "S on the transition system: every write to the peering object in the simulations replayed through `Status.patch` "
-       "(C13.write) and every call that cleans replayed as a `deliverStale` step on (view, status at landing) (C13.stale, which "
-       "also says whether the view was benign = inside the guard of the *_partial theorems: counter lts.stale_view); the Lean "
-       "witnesses of the open findings F4, F5, F7, F9 are run through the driver (C13.run) and their claim compared with the replay "
-       "of the same scenario on the real code. NOT tied (no trace-to-label-list correspondence of whole histories): the "
-       "labels deliver (it is deliverStale with a benign view: benign_stale_eq_deliver), wake/wakeIssue/land/sleeping, exit, exitBegin/exitEnd, "
-       "exitLost, kill, and the ghost nextKA/Allowed; for these the simulation oracle is the only link to the code")
+       "(C13.write); every call that cleans replayed as ONE `deliverStale` step (C13.stale) on (the view and ITS resourceVersion, "
+       "the object and ITS resourceVersion at the moment the PATCH reached the server): same applied/refused (409), same resulting "
+       "status, same toggle; a view that names the current version but is not the current content is not enabled in the model = a "
+       "tie failure ('a version identifies a content'); that clean() names the resourceVersion of the judged event is compared per "
+       "call; counter lts.stale_view says how the real staleness is distributed (current / older+same verdict / older+verdict differs). "
+       "The Lean witnesses of the open findings F4 (residue), F10 are run through the driver (C13.run) and their claim compared with "
+       "the replay of the same scenario on the real code. NOT tied (no trace-to-label-list correspondence of whole histories): the "
+       "labels wake/wakeIssue/land/sleeping, exit, exitBegin/exitEnd, exitLost, kill, and the ghost nextKA/Allowed; for these the "
+       "simulation oracle is the only link to the code (the stop ORDER of 26a293c is held by the oracle clauses D/H and the "
+       "regressions F7, F9, exit_handler_ignores_cancel)")
 LEVEL_TEXT = ("Lean theorems, STRENGTH partial. FULL (no guard): per call, all status contents: paused_iff, turned_iff, dead_cleaned, "
-              "wake_at_deadline; arithmetic keepalive_period, renewal, renewal_lifetime_one; withdraw_on_exit (both exit orders); "
-              "PARTIAL, guard 'no self-touch of the exiting operator is in flight when it withdraws', for ALL label lists (old views, "
-              "lost exits, kills, both exit orders, late landings): withdrawn_stays_partial, withdrawn_stays_from_partial - without "
-              "the guard FALSE of the code: selftouch_in_flight_witness (F9, replayed); FULL: exit_two_phase (the code's stop = record "
-              "withdrawn FIRST (exitBegin) ... handling ended LAST (exitEnd) composes to the proper stop `exit` when nothing happens in "
-              "between); benign_stale_eq_deliver / benign_run_eq_current (an older view that yields the same verdict and the same "
-              "cleaning IS the current status, step by step and for whole runs: the guard below is not 'zero latency' - in the timely "
-              "regime 99-100 % of the cleaning calls of the real code saw the current status or a benign older view (counter "
-              "lts.stale_view; the rest saw a verdict that was about to change), in the late regime - F4 - about half). PARTIAL, guard 'the last "
-              "view every running operator processed was the current status or a BENIGN older one and nobody is between exitBegin and "
-              "exitEnd' (= Stable, resp. Quiet interleavings + batches of deliver): exactly_top_partial, "
-              "at_most_one_active_partial, equal_priority_both_paused_partial; settle_partial, failover_exit_partial, "
-              "failover_after_loss_partial (from a state where the operators see each other / after the proper exit of anybody / "
-              "after a kill or lost exit of anybody: ANY interleaving of time, keep-alives, waking self-touches and deliveries of "
-              "the others, [the lost one's records expired,] own records fresh (second guard `hown`: what own_record_fresh gives for "
-              "timely runs) => after a covering delivery exactly the top one is active). OUTSIDE the guard the clause is FALSE of "
-              "the code, with Lean witnesses replayed on the real code: stale_view_two_active_witness (F4), "
-              "restart_stale_view_two_active_witness (F5), exit_overlap_two_active_witness (F7). failover_after_loss_timely_partial: "
-              "the two guards compose (Timely discharges `hown`). PARTIAL, guard Timely (every touch() "
-              "<= B ticks, 2B < min(5, L-1) s resp. 1/2 s for L = 1, no old views that are not benign, nobody writes under an "
-              "operator's identity, proper exit order): own_record_fresh. POSSIBILITY only (a schedule exists; `wake` has no time "
-              "guard in the model): resume_after_expiry (expiry -> the sleeping call can wake -> touch -> delivery -> active), "
-              "convergence_possible (from ANY state with nobody exiting; its schedule first lets EVERY record expire, then everybody "
-              "re-touches and reads the current status - not a timely run). NO theorem, simulation oracle only: the pause effects "
-              "(watch streams closed, daemons stopped, no handling beyond queued events, nothing handled twice - also across "
-              "operators: clause H; FALSE of the code in one history shape: F8), inevitability of resume / convergence, API failures "
-              "inside a call. The model is hand-written; see TIE for what is and is not compared with the code.")
+              "wake_at_deadline; arithmetic keepalive_period, renewal, renewal_lifetime_one. FULL, for EVERY view and EVERY label list "
+              "(new with 054d47d - F4's lasting half and F5 were the negation): stale_clean_refused (a clean from an older version "
+              "changes nothing), clean_removes_only_dead (what a clean removes is dead in the CURRENT status and somebody else's), "
+              "live_record_kept (a live record stays until its owner or a foreign writer under its name replaces it, whatever the "
+              "others do); restart_stale_view_record_kept (F5's schedule: the fresh record survives). FULL (new with 26a293c - F7, F9 "
+              "were the negation): withdraw_on_exit, withdrawn_stays, withdrawn_stays_from (the 'no self-touch in flight' guard is "
+              "gone: the observer is stopped before the pinger; selftouch_before_withdrawal = F9's schedule), exit_two_phase, "
+              "exiting_operator_still_blocks (in the exit window the record is renewed and everybody it outranks stays paused). "
+              "own_record_fresh: guard Timely only (every touch() <= B ticks, 2B < min(5, L-1) s resp. 1/2 s for L = 1, nobody writes "
+              "under an operator's identity) - the guards 'old views only if benign' and 'proper exit order' are gone: views of any "
+              "age, two-step stops. stale_same_verdict: an older view with the verdict of the current status sets the operator's "
+              "entry as the current status would. PARTIAL, one guard left = the residue of F4 (a VERDICT from an old view is the old "
+              "verdict): exactly_top_partial, at_most_one_active_partial (Stable: every running operator's last view had the verdict "
+              "of the current status; what the view would clean no longer matters), equal_priority_both_paused_partial; "
+              "settle_partial, failover_exit_partial (now over the two-step stop with anything Quiet in the exit window), "
+              "failover_after_loss_partial, failover_after_loss_timely_partial: ANY interleaving of time, keep-alives, waking "
+              "self-touches and deliveries of views of ANY age (Quiet now contains deliverStale), own records fresh (`hown`: what "
+              "own_record_fresh gives for timely runs) => after every running operator has processed the CURRENT status exactly the "
+              "top one is active. Outside the guard: stale_verdict_two_active_witness (replayed on the real code: F4.json - two "
+              "active for as long as events are later than a keep-alive margin; nothing deleted). POSSIBILITY only: "
+              "resume_after_expiry, convergence_possible, cleanup_possible (a reader of the CURRENT version removes every dead record "
+              "of others); cleanup is NOT inevitable any more: cleanup_starved_witness (F10, replayed: F10.json). NO theorem, simulation "
+              "oracle only: the pause effects (watch streams closed, daemons stopped, no handling beyond queued events, nothing "
+              "handled twice - also across operators: clause H), clause G2 (the last change of an object is not held back for ever "
+              "once an operator is active: 3cc60e3 drops the stale event, the re-listing brings the state), inevitability of resume "
+              "/ convergence, API failures inside a call. The model is hand-written; see TIE for what is and is not compared.")
 THEOREMS = [("Kopf.Props.C13", "Kopf.C13." + n) for n in [
     "paused_iff", "turned_iff", "dead_cleaned", "wake_at_deadline",
+    "stale_clean_refused", "clean_removes_only_dead", "live_record_kept", "stale_same_verdict",
     "exactly_top_partial", "at_most_one_active_partial", "equal_priority_both_paused_partial",
-    "stale_view_two_active_witness", "restart_stale_view_two_active_witness", "benign_stale_eq_deliver", "benign_run_eq_current",
-    "exit_two_phase", "exit_overlap_two_active_witness",
+    "stale_verdict_two_active_witness", "restart_stale_view_record_kept",
+    "exit_two_phase", "exiting_operator_still_blocks",
     "settle_partial", "failover_exit_partial", "failover_after_loss_partial", "failover_after_loss_timely_partial",
-    "resume_after_expiry", "convergence_possible",
+    "resume_after_expiry", "convergence_possible", "cleanup_possible", "cleanup_starved_witness",
     "keepalive_period", "renewal", "renewal_lifetime_one", "own_record_fresh",
-    "withdraw_on_exit", "withdrawn_stays_from_partial", "withdrawn_stays_partial", "selftouch_in_flight_witness"]]
+    "withdraw_on_exit", "withdrawn_stays_from", "withdrawn_stays", "selftouch_before_withdrawal"]]
 RULE = ("(1) direct calls: status of 0-5 records over a small identity pool (own record in/out), priority around the own one / "
         "missing / garbled, lifetime ints incl. 0,1,negative / numeric strings / garbage / missing, lastseen placed exactly on the "
         "deadline and +-1 tick / far past / future / missing / null / unparsable / naive & Z formats, unknown keys, non-mapping "
@@ -90,11 +98,13 @@ RULE = ("(1) direct calls: status of 0-5 records over a small identity pool (own
         "0.5-3 s (so that a handler overlaps a pause, a stop or a failover; in those the top operator is also stopped shortly after "
         "an edit), 10%: API responses delayed after the write is applied, stops during the first keep-alive, 15%: a waiting operator "
         "is asked to stop at the very tick its sleep towards a blocker's deadline ends (self-touch and withdrawal in flight "
-        "together; own random stream derived from the history's seed). A case is one "
+        "together; own random stream derived from the history's seed), 5% (same own stream): churn - everybody lifetime 2 and "
+        "peering events 0.5-0.75 s late (inside the margin) + a dead foreign record (F10). A case is one "
         "process_peering_event call (direct or simulated) "
         "or one keep-alive round or one write / stale-view step of the transition system; distinct & non-trivial = distinct abstracted (toggle-before, #dead, #prio, #same, own-record, "
         "error, sleep-kind, touch) tuples with a non-empty status.")
-TRUSTED = ["harness/sim (virtual-time loop, fake API server incl. merge-patch of `status`), harness/props/sim_c13.py "
+TRUSTED = ["harness/sim (virtual-time loop, fake API server incl. merge-patch of `status` and the 409 for a merge-patch that names another "
+           "metadata.resourceVersion than the stored one - added to fakeapi.py for this property), harness/props/sim_c13.py "
            "(attribute-level observation of toggles / peering calls / handlers / watch requests)",
            "abstraction of a status: `lastseen` text -> ticks via iso8601 (kopf's own parser); everything else verbatim",
            "the keep-alive jitter (random.randint(5, 10) as seen from peering.keepalive) is drawn per operator incarnation from a "
@@ -113,18 +123,28 @@ ASSUMPTIONS = ["one virtual clock shared by all operators (no clock skew between
                "LATENCY GUARD of renewal / own_record_fresh: every touch() call takes at most B with 2*B < min(5, lifetime-1) s "
                "(1/2 s for lifetime 1) and asyncio.sleep wakes on time; touch() goes through api.request's retry/backoff, so a single "
                "5xx/429 breaks the bound (C12's subject) - then the record may expire before it is renewed",
-               "the `*_partial` theorems hold under 'every processed view is current or BENIGN (same verdict, same cleaning as the current "
-               "status)'; real calls nearly always see an older view (watch latency) - how many of the cleaning calls of a run are benign is "
-               "counted (lts.stale_view); F4/F5 are the non-benign ones: the view older than a keep-alive margin / than a restart",
+               "the `*_partial` theorems ask that the LAST view each running operator processes have the verdict of the current status; real "
+               "calls nearly always see an older view (watch latency): how the cleaning calls of a run are distributed (current version / "
+               "older, same verdict / older, verdict differs) is counted (lts.stale_view); F4's residue are the last ones",
+               "MODEL OF THE VERSION: `ver` moves on EVERY write request to the peering object, also one that changes nothing (the real "
+               "API keeps the resourceVersion then: a clean naming it is accepted - and removes what the current content holds, which is "
+               "the judged content: the model's `deliver`); 'a version identifies a content' is built into `deliverStale` (a view naming "
+               "the current version must be the current status) and checked per real call; a JSON object has unique keys: removing by "
+               "identity = removing that record; the peering CRD has NO status subresource (kopf's peering.yaml, the fake cluster): with "
+               "one, patch_obj() would send the version in a separate body PATCH and the status PATCH unconditionally (not checked)",
+               "an operator that is finishing (between exitBegin and exitEnd) processes no further views in the model; in the code the "
+               "observer's queue is worked off for <= queueing.exit_timeout: those calls' cleans are conditional like any other, their "
+               "toggle no longer matters (the watchers are stopping); there is NO timeout on the stop itself: with a handler that never "
+               "ends the withdrawal never comes (corpus exit_handler_ignores_cancel.json: 8 s; only ultimate_exiting_timeout - SIGKILL - "
+               "and the record's expiry free the peers then) - the operator counts as running until its stop has completed",
                "the peering object itself stays: deleting the KopfPeering/ClusterKopfPeering object (or its CRD) while operators run is "
                "outside the quantifier of the property ('any set of operators, any order of starts/exits/kills, any delivery timing'); there "
                "touch() gets a 404 that is only logged, no event arrives any more and a paused operator stays paused until the object is "
                "re-created (audit N2, reproduced; recorded as an observation, not a finding - sim_c13 can do it: delete_peering/create_peering)",
                "a request that the client has CANCELLED is not applied by the server afterwards (the fake API drops it): the pinger's own "
                "keep-alive PATCH cancelled in flight by the stop cannot land after the withdrawal (the two are sequential in one task), "
-               "and with proposals/fix-C13F7 neither can the cancelled self-touch of the peering observer; two requests that are both in "
-               "flight are applied in either order (finding F9: self-touch and withdrawal issued in the same tick; the model has "
-               "`wakeIssue`/`land` for it, the pinger's `keepalive` lands at once)",
+               "and neither can a self-touch of the peering observer that was cancelled with it (`exitEnd` drops `inflight`); two requests "
+               "that are both in flight are applied in either order - since 26a293c the self-touch and the withdrawal never are",
                "`wake` has no time guard in the model (it may fire before the deadline, with any lag outside Timely): resume_after_expiry "
                "says the sleeping call CAN wake, not that it does at the deadline; the oracle (B) checks the latter on the real code",
                "a lifetime outside timedelta's range or a deadline outside years 1..9999 makes Peer() raise OverflowError - every peer "
@@ -138,11 +158,17 @@ ASSUMPTIONS = ["one virtual clock shared by all operators (no clock skew between
                "operator is active until its first peering event",
                "ORACLE-ONLY clauses (no Lean theorem): paused => watch streams closed; daemons stopped; no change handling beyond events "
                "already queued; no handler executed twice because of the pause - within one operator and (clause H) across operators, "
-               "an operator counting as running until its stop has COMPLETED; convergence / resume are inevitable (only possible: "
-               "convergence_possible, resume_after_expiry); F3 (daemon killer), F6 regressions"]
+               "an operator counting as running until its stop has COMPLETED; the last change of an object is handled once an operator "
+               "has been active undisturbed for W + 1 + consistency_timeout + 1 s (clause G2); convergence / resume are inevitable (only "
+               "possible: convergence_possible, resume_after_expiry); dead records are cleaned within max(1, lifetime-5) s + W (clause E, "
+               "timely regime: FALSE under churn, F10); F3 (daemon killer), F6, F7, F8, F9 regressions"]
 
 TPS = sim_c13.TPS
 LAT = 1.0 / 64
+# finding F10 (introduced by 054d47d): the conditional clean() starves while the peering object changes faster than views arrive
+STARVED_CLEAN_SIG = {"site": "peering.clean", "shape": "dead record not cleaned: every clean() naming it is refused (409), the peering object changes faster than the readers' views arrive"}
+# the residue of finding F4 (what 054d47d cannot repair): a VERDICT taken from an old view
+STALE_VERDICT_SIG = {"site": "peering.process_peering_event", "shape": "a live peer judged dead from a view older than its keep-alive margin: the reader is active beside it until its next event", "regime": "late-delivery"}
 EPOCH = datetime.datetime(2030, 1, 1, tzinfo=datetime.timezone.utc)
 
 
@@ -467,6 +493,19 @@ def gen_history(rng: Any, seed: int) -> dict:
         waiting = [x for x in names if x != top]
         kills = [e[0] for e in tl if e[1] == "kill"]
         sc["stop_on_wake"] = {r2.choice(waiting): (min(kills) if kills and r2.random() < 0.7 else 0.0)}
+    # 5%: churn - everybody renews every second (lifetime 2) and gets its peering events 0.5-0.75 s late (inside the margin of 1 s:
+    # the timely regime), and a dead foreign record appears: is it still cleaned when every clean() names a version that is
+    # already gone (054d47d)? Drawn after the draws above, from the same own stream: the other histories stay as they were.
+    if r2.random() < 0.05 and "stop_on_wake" not in sc:
+        d = r2.choice([0.5, 0.75])
+        for nm in names:
+            ops[nm]["lifetime"] = 2
+            delivery[nm] = d
+        sc["response_latency"] = {}
+        tg = _dy(r2, 6.0, max(7.0, end - 12))
+        sc["timeline"] = sorted(sc["timeline"] + [[tg, "ghost_rel", {"ghost-churn": {"priority": r2.choice([9999, -9999]), "lifetime": 3, "age": 10}}]],
+                                key=lambda e: e[0])
+        sc["churn"] = True
     return sc
 
 
@@ -825,8 +864,19 @@ def oracle_history(ctx: Ctx, sc: dict, tr: dict, full: bool = False) -> dict:
                     break
             stats["dead_cleaned"] += 1
             if gone is None or gone > t_dead + best:
-                fail(f"record {ident} ({r}) is dead since {t_dead} but was still in the peering object at {t_dead + best} "
-                     f"although an operator ran all that time", "cleanup: dead record not removed", ident=ident, t=t_dead)
+                tried = [w for w in tr.get("refused", []) if isinstance(w.get("patch"), dict) and ident in w["patch"]
+                         and t_dead <= w["t"] <= t_dead + best]
+                if tried:
+                    # since 054d47d a clean() is applied only to the version it judged: every attempt came too late
+                    ctx.oracle_fail(f"record {ident} ({r}) is dead since {t_dead} but was still in the peering object at {t_dead + best}"
+                                    f"{'' if gone is None else f' (gone at {gone})'}: {len(tried)} clean() calls of running operators named it in "
+                                    f"that time and ALL were refused with 409 - the peering object (keep-alives of {len(sc['ops'])} operators) "
+                                    f"had changed again before each of them arrived (first: sent for version {tried[0]['rv_sent']}, object at "
+                                    f"{tried[0]['rv_before']}, by {tried[0]['who']} at {tried[0]['t']})",
+                                    {"scenario": sc, "ident": ident, "t": t_dead}, dict(STARVED_CLEAN_SIG))
+                else:
+                    fail(f"record {ident} ({r}) is dead since {t_dead} but was still in the peering object at {t_dead + best} "
+                         f"although an operator ran all that time", "cleanup: dead record not removed", ident=ident, t=t_dead)
 
     # ---- (F) effects of a pause ---------------------------------------------------------------------------------------
     reqs_by_who: dict[str, list[dict]] = {}
@@ -940,8 +990,7 @@ def oracle_history(ctx: Ctx, sc: dict, tr: dict, full: bool = False) -> dict:
                     # between and stored ITS view of the handling state (last-handled configuration, progress) over this one's
                     ctx.oracle_fail(what + ": another operator, active at the same time (peering events arrive later than a keep-alive "
                                     "margin), handled the same object in between and overwrote the stored handling state",
-                                    {"scenario": sc, "inc": i["inc"], "t": c["t"]},
-                                    {"site": "peering.clean", "shape": "fresh record of a running operator deleted by a peer", "regime": "late-delivery"})
+                                    {"scenario": sc, "inc": i["inc"], "t": c["t"]}, dict(STALE_VERDICT_SIG))
                 else:
                     fail(what, "handler executed twice for one change by one operator", inc=i["inc"], t=c["t"])
                 break
@@ -982,7 +1031,13 @@ def oracle_history(ctx: Ctx, sc: dict, tr: dict, full: bool = False) -> dict:
                 unseen = (H.expected_paused(i1, c1["t"]) and settling(i1, c1["t"])) or (H.expected_paused(i2, c2["t"]) and settling(i2, c2["t"]))
                 right1 = (not H.expected_paused(i1, c1["t"])) or settling(i1, c1["t"])
                 handover = right1 and any(v and c1["t"] <= t <= c2["t"] + H.W for (t, v) in H.pz.get(i1["inc"], []))
-                if unseen or handover:
+                # (iii) the first one is on its way out (asked to stop: its peering observer is stopped, it can no longer be told to
+                #      pause) and an operator that OUTRANKS it appeared after it had started this handling: the newcomer need not
+                #      wait for anybody of lower priority, the leaver's handling in flight is "already queued" and ends within
+                #      queueing.exit_timeout. (The reverse - a successor of LOWER priority resuming beside the leaver - is F7.)
+                outranked_leaver = (right1 and i1["t_stop_req"] is not None and i1["t_stop_req"] <= c2["t"]
+                                    and i2["priority"] >= i1["priority"] and c1["t"] <= H.made.get(i2["inc"], i2["t_start"]))
+                if unseen or handover or outranked_leaver:
                     continue
                 reported = True
                 what = (f"change {key[1]}(x={key[2]}) of {c1['name']} handled by {i1['name']} at {c1['t']} (until {c1.get('t_end')}) AND by "
@@ -991,13 +1046,14 @@ def oracle_history(ctx: Ctx, sc: dict, tr: dict, full: bool = False) -> dict:
                 ex = [ix for ix in (i1, i2) if ix["t_stop_req"] is not None and ix["t_stop_req"] <= c2["t"]
                       and (ix["t_stopped"] is None or c2["t"] <= ix["t_stopped"])]
                 if ex:
-                    ctx.oracle_fail(what + f": {ex[0]['name']} was asked to stop at {ex[0]['t_stop_req']}, withdrew its record at once and went on "
-                                    f"handling until {ex[0]['t_stopped']}; the successor resumed meanwhile",
+                    ctx.oracle_fail(what + f": {ex[0]['name']} was asked to stop at {ex[0]['t_stop_req']} and went on handling until "
+                                    f"{ex[0]['t_stopped']}; its record was withdrawn before that, the successor resumed meanwhile",
                                     {"scenario": sc, "t": c2["t"]},
                                     {"site": "orchestration.orchestrator", "shape": "the successor handles a change the exiting operator is still handling"})
                 elif H.late:
-                    ctx.oracle_fail(what + " (peering events arrive later than a keep-alive margin)", {"scenario": sc, "t": c2["t"]},
-                                    {"site": "peering.clean", "shape": "fresh record of a running operator deleted by a peer", "regime": "late-delivery"})
+                    ctx.oracle_fail(what + " (peering events arrive later than a keep-alive margin: one of the two judged the other dead "
+                                    "from an old view and was active beside it until its next event; no record was deleted)",
+                                    {"scenario": sc, "t": c2["t"]}, dict(STALE_VERDICT_SIG))
                 else:
                     fail(what, "one change handled by two active operators", t=c2["t"])
 
@@ -1038,6 +1094,41 @@ def oracle_history(ctx: Ctx, sc: dict, tr: dict, full: bool = False) -> dict:
             near = [c for c in near if c["t"] <= te + Wg]
             fail(f"edit x={xv} at {te}: every running operator is paused, yet {[(c['op'], c['t']) for c in near]} handled it",
                  "quiet edit handled although every operator is paused", t=te)
+
+    # ---- (G2) the last change of an object is not held back for ever: once an operator has been active, undisturbed, for long
+    # enough after it (e.g. after a pause during which the change was made), somebody has handled it -----------------------------
+    ctimeout = 5.0          # settings.persistence.consistency_timeout (default): a worker may wait that long for its own patch's version
+    for e in sc["timeline"] if timely else []:
+        if e[1] != "edit":
+            continue
+        te, name, xv = e[0], e[2], e[3]["spec"]["x"]
+        if any(e2[1] == "edit" and e2[2] == name and e2[0] > te for e2 in sc["timeline"]):
+            continue            # only the LAST change of an object (kopf handles the latest state)
+        busy = 0.0
+        if sc.get("handler_delay"):
+            busy = float(sc["handler_delay"]) * (1 + sum(1 for e2 in sc["timeline"] if e2[1] in ("edit", "create") and te - 60 <= e2[0] <= te))
+        need = Wg + ctimeout + busy + 1.0
+        served = False
+        for i in incs:
+            if i["inc"] not in H.made or served:
+                continue
+            # maximal intervals in which i is running, made, and active
+            t0 = max(H.made[i["inc"]], te)
+            t1 = H.end_of(i)
+            ev = [(t, v) for (t, v) in H.pz.get(i["inc"], []) if t0 < t < t1]
+            cur_t, cur_v = t0, H.paused_at(i["inc"], t0)
+            for (t, v) in ev + [(t1, True)]:
+                if cur_v is False and t - cur_t >= need and cur_t + need < H.t_end:
+                    served = True
+                    break
+                if v != cur_v:
+                    cur_t, cur_v = t, v
+        if not served:
+            continue
+        stats["last_edits_owed"] = stats.get("last_edits_owed", 0) + 1
+        if not any(c["kind"] in ("create", "update") and c["name"] == name and c["x"] == xv and c["t"] >= te for c in tr["calls"]):
+            fail(f"edit x={xv} of {name} at {te} is the object's last change; an operator was active, undisturbed, for more than {need} s "
+                 f"after it, yet nobody ever ran a handler for it", "last change never handled although an operator was active long enough", t=te)
     return stats
 
 
@@ -1162,7 +1253,10 @@ class Collector:
         self.samples: list = []
 
     def oracle_fail(self, what: str, replay: Any, signature: dict | None = None) -> None:
-        if len(self.failures) < 8:
+        # a few of every KIND of failure (a history that fails one clause at every checkpoint must not hide another clause)
+        shape = (signature or {}).get("shape")
+        same = sum(1 for f in self.failures if f[0] == "oracle" and (f[3] or {}).get("shape") == shape)
+        if same < 3 and len(self.failures) < 24:
             self.failures.append(["oracle", what, replay, signature])
 
     def tie_fail(self, what: str, replay: Any) -> None:
@@ -1196,6 +1290,8 @@ def judge(sc: dict, tr: dict, full: bool = False) -> dict:
         col.count("history.stop_on_wake", "fired (stop at the tick a sleep to a deadline ended)"
                   if any(m["what"] == "stop_on_wake" for m in tr.get("marks", [])) else "armed, no undisturbed wake")
     col.count("history.handler_delay", sc.get("handler_delay") or 0)
+    if sc.get("churn"):
+        col.count("history.churn", f"{len(sc['ops'])} operators, lifetime 2, delivery {max(sc['delivery'].values())}")
     col.count("history.events", ",".join(sorted({e[1] for e in sc["timeline"]})))
     for n, p in enumerate(tr["pcalls"]):
         if p["now2"] is None and p["error"] in (None, "cancelled") and p["name_ok"]:
@@ -1246,22 +1342,32 @@ def judge(sc: dict, tr: dict, full: bool = False) -> dict:
                 if not (0 <= lag <= bound):
                     col.tie_fail(f"a record landed {lag} ticks after it was stamped: the harness' API latency exceeds the bound B the "
                                  f"timely-run theorems assume", {"scenario": sc, "write": w})
+    # every call that cleans, as ONE step of the transition system: (view, its version) against (the status, its version) at the
+    # moment the conditional PATCH reached the server - applied (200) or refused (409)
     by_issue: dict[tuple, list] = {}
     for (w, b, a_, pl) in wf_writes:
-        by_issue.setdefault((w["who"], sim_c13.ticks(w["t_issue"])), []).append((w, b, a_, pl))
+        by_issue.setdefault((w["who"], sim_c13.ticks(w["t_issue"])), []).append((w, b, a_, False))
+    for w in tr.get("refused", []):
+        by_issue.setdefault((w["who"], sim_c13.ticks(w["t_issue"])), []).append((w, wf_status(w["before"]), wf_status(w["after"]), True))
     for p in tr["pcalls"]:
         if not p["cleaned"] or p["toggle_before"] is None or p["error"] not in (None, "cancelled"):
             continue
         view = wf_status(p["status"])
         ws = [x for x in by_issue.get((who_of.get(p["inc"]), p["t0"]), [])
               if isinstance(x[0]["patch"], dict) and list(x[0]["patch"].keys()) == p["cleaned"] and all(v is None for v in x[0]["patch"].values())]
-        if view is None or len(ws) != 1 or ws[0][1] is None or ws[0][2] is None:
+        if view is None or len(ws) != 1 or ws[0][1] is None or ws[0][2] is None or not str(p["rv"]).isdigit() \
+                or not str(ws[0][0].get("rv_before")).isdigit():
             col.count("lts.stale", "skipped")
             continue
-        lts.append([["C13.stale", {"u": TPS, "current": ws[0][1], "view": view, "me": p["me"], "prio": p["prio"],
-                                   "paused": p["toggle_before"], "now": p["t0"], "regime": "late" if stats.get("late_regime") else "timely"}],
-                    {"status": ws[0][2], "paused": p["toggle_after"]}])
-        col.count("lts.stale", "view==current" if view == ws[0][1] else "view older than current")
+        w, cur, after, refused = ws[0]
+        if w.get("rv_sent") != str(p["rv"]):
+            col.tie_fail(f"clean() named resourceVersion {w.get('rv_sent')!r} in its patch, the event it judged was at {p['rv']!r}: the "
+                         f"model's conditional clean (the version of the judged view) is not what the code does", {"scenario": sc, "call": p, "write": w})
+        lts.append([["C13.stale", {"u": TPS, "current": cur, "ver": int(w["rv_before"]), "view": view, "vv": int(p["rv"]), "me": p["me"],
+                                   "prio": p["prio"], "paused": p["toggle_before"], "now": p["t0"],
+                                   "regime": "late" if stats.get("late_regime") else "timely"}],
+                    {"status": after, "paused": p["toggle_after"], "refused": refused}])
+        col.count("lts.stale", ("refused (409)" if refused else "applied") + (", view==current" if view == cur else ", view older than current"))
     for kk in tr["ka"]:
         if kk["lifetime"] is None:
             continue
@@ -1292,7 +1398,11 @@ def judge(sc: dict, tr: dict, full: bool = False) -> dict:
                            and i["identity"] in H.status_at(i["t_stopped"])[0]
                            and H.live(H.status_at(i["t_stopped"])[0][i["identity"]], i["t_stopped"])
                            and not any(j is not i and j["identity"] == i["identity"] and H.running(j, i["t_stopped"]) for j in tr["incs"]))
-        facts = {"both_active": sorted(both), "running_without_record": sorted(bare), "gone_with_live_record": gone_live}
+        st_end, _rv = H.status_at(H.t_end - LAT)
+        run_ids = {i["identity"] for i in tr["incs"] if i["t_start"] <= H.t_end < run_end(i)}
+        dead_left = sorted(k for k, r in st_end.items() if k not in run_ids and not H.live(r, H.t_end - 5.0))
+        facts = {"both_active": sorted(both), "running_without_record": sorted(bare), "gone_with_live_record": gone_live,
+                 "dead_record_left": dead_left}
     return {"judged": True, "failures": col.failures, "counts": col.counts, "cases": col.cases, "samples": col.samples,
             "calls": calls, "ka": ka, "lts": lts, "sim_error": tr.get("sim_error"), "facts": facts}
 
@@ -1372,12 +1482,14 @@ def run(ctx: Ctx) -> None:
     for req, impl, out, wh in zip(lts[0], lts[1], outs[len(reqs) + len(ka_reqs):], lts[2]):
         m = out[1] if out and out[0] == "ok" else out
         if req[0] == "C13.stale" and isinstance(m, dict):
-            # how much of the real staleness lies inside the guard of the `_partial` theorems (`benign_stale_eq_deliver`)
-            ctx.count("lts.stale_view", f"{req[1].get('regime', '?')} regime: " + ("current" if req[1]["view"] == req[1]["current"] else
-                                         "older, benign (inside the guard)" if m.get("benign") else
-                                         "older, NOT benign (outside the guard): " + ("cleaning differs" if m.get("sameVerdict") else "verdict differs")))
+            # how the real staleness is distributed: views of the current version (clean applied), older views whose clean is
+            # refused - with the verdict of the current status, or with another one (the residue of F4)
+            ctx.count("lts.stale_view", f"{req[1].get('regime', '?')} regime: " + (
+                "current version (clean applied)" if not m.get("refused") else
+                "older version, clean refused, same verdict" if m.get("sameVerdict") else
+                "older version, clean refused, VERDICT DIFFERS (residue of F4)"))
             # (a call cancelled - operator torn down - after its clean() has landed but before the toggle: the write is compared)
-            m = {"status": m["status"], "paused": m["paused"] if impl.get("paused") is not None else None}
+            m = {"status": m["status"], "paused": m["paused"] if impl.get("paused") is not None else None, "refused": m["refused"]}
         ctx.compare("C13 transition system: " + ("write semantics" if req[0] == "C13.write" else "stale-view step"), impl, m, wh)
         ctx.case(key={"lts": req[0], "n": min(len(req[1]) if isinstance(req[1], list) else len(req[1]["current"]), 3)}, nontrivial=True)
     ctx.count("histories", "run", len(histories))
@@ -1414,7 +1526,8 @@ def run_witness(ctx: Ctx, name: str, d: dict) -> None:
             live_ids = [e[0] for e in last["status"] if e[1]["lastseen"] + e[1]["lifetime"] * TPS > last["now"]]
             m_all = {"both_active": sum(1 for o in ops_.values() if o["alive"] and not o["paused"]) >= 2,
                      "running_without_record": any(o["alive"] and i not in [e[0] for e in last["status"]] for i, o in ops_.items()),
-                     "gone_with_live_record": any(not o["alive"] and i in live_ids for i, o in ops_.items())}
+                     "gone_with_live_record": any(not o["alive"] and i in live_ids for i, o in ops_.items()),
+                     "dead_record_left": any(e[0] not in live_ids and not (ops_.get(e[0]) or {}).get("alive") for e in last["status"])}
             model = {k: m_all[k] for k in claims}
         facts = j.get("facts") or {}
         impl = {k: bool(facts.get(k)) for k in claims}
